@@ -4,12 +4,12 @@ import numpy as np
 from common import *
 
 ID = "C09"
-THEOREM_FILES = ["Summer.Props.C09", "Summer.Props.C09Model"]
+THEOREM_FILES = ["Summer.Props.C09", "Summer.Props.C09Model", "Summer.Props.C01Source"]
 TASK = "task"
-RULE = ("programs with 2-8 parameters at every parameterisable site (flow rates, adjustments, initial distribution, splits, infectiousness "
+RULE = ("programs with 2-8 parameters (every third one with Multiply / Overwrite adjustment chains on one flow across 2-3 stratifications) at every parameterisable site (flow rates, adjustments, initial distribution, splits, infectiousness "
         "adjustments, mixing matrices, time-function points, computed values, derived-output functions): (a) literal-built model vs "
         "parameter-built model, (b) every partition of the parameters into build-time-fixed and run-time-supplied (all 2^k for k<=4, 8 random "
-        "above) through get_runner(base, dyn_params=...).run, (c) default parameters filling omitted values, (d) get_input_parameters() equals "
+        "above) through get_runner(base, dyn_params=...).run, (b') two runners from one model object with different build-time values, (c) default parameters filling omitted values, (d) get_input_parameters() equals "
         "the model's Params.inputParams and omitting any reported parameter makes the run fail; distinct by program hash + variant, non-trivial "
         "when the program has >= 2 parameters")
 TRUSTED = ["Params.inputParams in lean/Summer/Model/Params.lean is the reading of 'the set that is needed and able to influence the results'"]
@@ -33,7 +33,11 @@ def build(ops):
 
 def task(W, payload):
     r = random.Random(f"C09:{payload['seed']}:{payload['index']}")
-    prog = Gen(r, Opts(max_strats=2, max_flows=5, n_requests=4, mixing_pair_bias=0.25)).program()
+    if payload["index"] % 3 == 1:
+        # adjustment chains across stratifications (a Multiply of one stratification followed by an Overwrite of a later one and vice versa)
+        prog = Gen(r, Opts(max_strats=3, max_flows=4, n_requests=2, force_strat=True, chain_adjust_bias=0.8, allow_mixing=False)).program()
+    else:
+        prog = Gen(r, Opts(max_strats=2, max_flows=5, n_requests=4, mixing_pair_bias=0.25)).program()
     out = mk_out(prog)
     ops = prog["build"]; params = prog["params"]
     pf = {k: float(Fr(v)) for k, v in params.items()}
@@ -92,6 +96,29 @@ def task(W, payload):
         if nontrivial: out["cases"].append(h + ":dyn:" + ",".join(dyn))
         if not same(got, refd):
             fail(out, "results depend on which parameters were fixed when the runner was built", "c09", payload, dyn=dyn, program=ops, params=params)
+    # (b') two runners from ONE model object with the same run-time-supplied set but different build-time values: the second
+    # runner must reflect ITS build-time values (fixing at build time == supplying at run time, whatever was built before)
+    fixed_candidates = [k for k in keys]
+    if len(keys) >= 1:
+        dyn = r.sample(keys, r.randint(0, len(keys) - 1))
+        fixed = [k for k in keys if k not in dyn]
+        I7 = build(ops)
+        try:
+            wrong = dict(pf)
+            for k in fixed:
+                wrong[k] = pf[k] * 1.5 + 0.25
+            r1 = I7.model.get_runner(wrong, dyn_params=list(dyn), jit=False, solver="euler")
+            r1._run_func(parameters={k: pf[k] for k in dyn})
+            r2 = I7.model.get_runner(dict(pf), dyn_params=list(dyn), jit=False, solver="euler")
+            res = r2._run_func(parameters={k: pf[k] for k in dyn})
+            got = {"outputs": np.asarray(res["outputs"]).tolist(), "derived": {k: np.asarray(v).tolist() for k, v in res["derived_outputs"].items()}}
+            out["evals"] += 1
+            if nontrivial: out["cases"].append(h + ":two_runners:" + ",".join(dyn))
+            if not same(got, refd):
+                fail(out, "a second runner built from the same model object with other build-time values does not reflect its own build-time values",
+                     "c09", payload, dyn=dyn, fixed=fixed, program=ops, params=params)
+        except BaseException as e:
+            fail(out, "building two runners from one model object fails", "c09", payload, dyn=dyn, err=f"{type(e).__name__}: {e}"[:300], program=ops, params=params)
     # (c) defaults fill omitted values; supplied values win
     if keys:
         I4 = build(ops)
